@@ -48,6 +48,9 @@ CHECKS = {
  "C10": ("exhaustive enumeration of short token strings and of all single-edit neighbours of a corpus, in killable workers (E1): every input is offered to the parser entry points / escape decoder / fact-file readers; units that parse go through AnalyzeAndCheckBounds and EvalProgram under a fact limit",
          "bounded-exhaustive within token-string length k and edit distance 1 of 19 sources and 6 fact files: each step must return a value or an error; panics are caught per input, hangs by a per-input watchdog in a worker process",
          "not coverage-guided fuzzing: long adversarial inputs are outside the bound; header counts near 2^32 (huge allocation) are noted, not executed", "4 C10"),
+ "C14": ("small-scope enumeration (E1): every set of <=2 intervals on a 7-point timeline x the four operators x all bound pairs x every evaluation time; variable and head annotations, chains; every ordered interval pair x 9 relations; real engine compared with own interval arithmetic",
+         "bounded-exhaustive: every (fact set, program, evaluation time) in scope is evaluated on the real engine against a coalesced TemporalStore and the derived facts / stored intervals compared exactly with the pointwise meaning",
+         "windows written with the larger offset first are undocumented and not judged; stored intervals for annotation enumeration are read from the coalesced store (subject of C13)", "4 C14"),
 }
 NOT_APPLICABLE = {
 }
